@@ -781,8 +781,8 @@ func fkel() float64 { s := []float64{FK, FK2}; return s[1] / 2 }
 func (c *Ctx) c04OpenFindings() {
 	for _, w := range []struct {
 		id, src, fn string
-		args      []goat.Value
-		want      string
+		args        []goat.Value
+		want        string
 	}{
 		{"float-constant-operand", "func f(i int) float64 { x := i / 2.0; return float64(x) }", "f", []goat.Value{mkArg("int32", 7)}, "3:float64"},
 		{"constant-shift-in-expression", "func f(x int32, s int32) int32 { return x + 1<<s>>s }", "f", []goat.Value{mkArg("int32", 5), mkArg("int32", 31)}, "4:int32"},
